@@ -478,6 +478,18 @@ fn attr_is(a: &syn::Attribute, what: &str) -> bool {
 fn process_adt(src: &str, d: &Dir) -> StructOut {
     // src = item text incl. attrs
     let mut rules = BTreeMap::new();
+    // R0 on a type definition (e.g. a `dyn A + B` payload Verus cannot take => an opaque shim type):
+    // each substitution must match exactly once and is counted/listed like the ones on functions
+    let mut src_owned = src.to_string();
+    for (a, b) in &d.substs {
+        let n = src_owned.matches(a.as_str()).count();
+        if n != 1 {
+            die("anchor-lost", &format!("{}: subst text occurs {} times: {:?}", d.item, n, a));
+        }
+        src_owned = src_owned.replacen(a.as_str(), b, 1);
+        *rules.entry("R0".to_string()).or_insert(0) += 1;
+    }
+    let src: &str = &src_owned;
     let item: syn::Item = syn::parse_str(src).unwrap_or_else(|e| die("parse-failure", &format!("{}: {}", d.item, e)));
     let mut edits: Vec<(Range<usize>, String)> = Vec::new();
     let mut bump = |k: &str, n: usize| {
@@ -595,20 +607,10 @@ fn process_adt(src: &str, d: &Dir) -> StructOut {
         _ => die("unsupported", &format!("item kind of {}", d.item)),
     }
     let _ = &mut bump;
+    // everything before the keyword (attributes, comments, visibility) is cut
+    let edits: Vec<(Range<usize>, String)> = edits.into_iter().filter(|(r, _)| r.start >= head_start).collect();
     let t = apply_edits(src, edits);
-    // cut everything before the keyword (after edits the prefix holds only whitespace)
-    let kw = match &item {
-        syn::Item::Struct(_) => "struct",
-        syn::Item::Enum(_) => "enum",
-        syn::Item::Const(_) => "const",
-        syn::Item::Static(_) => "static",
-        _ => "type",
-    };
-    let _ = head_start;
-    let pos = t.find(kw).unwrap();
-    if !t[..pos].trim().is_empty() {
-        die("internal", &format!("unexpected prefix before {}: {:?}", kw, &t[..pos]));
-    }
+    let pos = head_start;
     let mut text = String::new();
     for a in &d.attrs {
         text.push_str(a);
